@@ -345,7 +345,7 @@ func writeReplay(w *World, cfg *RunCfg, prop, dir string, r *FuncResult, o *Obli
 	confirmed := false
 	if fq != nil {
 		fmt.Fprintf(&b, "path: %v\nsolver: %s (%d ms) -> %s\n--- solver output ---\n%s\n", fq.Trace, fq.Solver, fq.Ms, fq.Status, trunc(fq.Output, 20000))
-		if fq.Status == "sat" {
+		{
 			if text, ok := tryReplay(w, cfg, prop, r, o, fq); text != "" {
 				fmt.Fprintf(&b, "--- replay on the real code ---\n%s\n", text)
 				confirmed = ok
